@@ -127,7 +127,7 @@ Theorem C07_closed_absorbing_prefix_refuted :
   (exists p s, prun_cfg cfg_noacc peer0 resurrect_history = Some p /\
                nth_error (sessions p) 1 = Some s /\ st s = Ok /\ notified s = 1) /\
   (exists p s, prun_cfg cfg_noacc peer0
-                 (resurrect_history ++ [PSess 1 (EReader true); PSess 1 (EFrame FrErr)] ++ repeat (PSess 1 (EReader true)) 9) = Some p /\
+                 (resurrect_history ++ [PSess 1 (EReader true); PSess 1 (EFrame FrErr)] ++ repeat (PSess 1 (EReader true)) 10) = Some p /\
                nth_error (sessions p) 1 = Some s /\ st s = PassiveClosed /\ hooks s = 2).
 Proof. exact closed_absorbing_prefix_refuted_lemma. Qed.
 Print Assumptions C07_closed_absorbing_prefix_refuted.
@@ -144,6 +144,6 @@ Example C07_takeover_fixed :
 Proof. exact takeover_fixed. Qed.
 
 Example C07_close_race_fixed :
-  exists s, srun live_session (firstn 7 close_race_history ++ repeat (EReader true) 6 ++ repeat ECloser 7) = Some s
+  exists s, srun live_session (firstn 7 close_race_history ++ repeat (EReader true) 7 ++ repeat ECloser 7) = Some s
             /\ hooks s = 1 /\ notified s = 1 /\ st s = ActiveClosed /\ terminal s = true.
 Proof. exact close_race_fixed. Qed.
